@@ -49,6 +49,8 @@ CheckFunding(e, post) ==
       name(n) == IF known = "none" THEN n ELSE known
   IN
   (IF e.facts.genuine THEN {} ELSE {name("SlashOnlyForAReportReallySubmitted")})
+  \* stake is escrowed when the dispute BECOMES FULLY FUNDED - not before the fee is complete
+  \cup (IF d.feetotal = d.slash THEN {} ELSE {name("StakeEscrowedOnlyOnceTheFeeIsComplete")})
   \cup (IF d.hash \in slashedHashes THEN {"SlashedAtMostOncePerDispute"} ELSE {})
   \cup (IF d.slash = slash /\ d.escrow.total.mag = slash /\ ~d.escrow.total.neg THEN {} ELSE {name("SlashIsExactlyTheCategoryShare")})
   \cup (IF e.bond THEN {}   \* a fee paid from the signer's stake in the same message also reduces stake: apportioning not isolated
